@@ -3,11 +3,22 @@ use std::future::Future;
 use std::panic::AssertUnwindSafe;
 use std::sync::atomic::Ordering;
 use std::time::Duration;
+#[cfg(not(nexosim_verif))]
 use std::{fmt, panic, thread};
+#[cfg(nexosim_verif)]
+use {
+    crate::verif::thread,
+    std::{fmt, panic},
+};
+#[cfg(nexosim_verif_shuttle)]
+use crate::verif::LocalKeyCellExt as _;
 
 // TODO: revert to `crossbeam_utils::sync::Parker` once timeout support lands in
 // v1.0 (see https://github.com/crossbeam-rs/crossbeam/pull/1012).
+#[cfg(not(nexosim_verif))]
 use parking::Parker;
+#[cfg(nexosim_verif)]
+use crate::verif::parking::Parker;
 use slab::Slab;
 
 use super::task::{self, CancelToken, Promise, Runnable};
